@@ -1873,3 +1873,9 @@ mod tests {
         ResourceDef::prefix("/user/{id}*");
     }
 }
+
+#[cfg(kani)]
+#[allow(semicolon_in_expressions_from_non_local_macros, unused)]
+mod verif_kani {
+    include!(concat!(env!("VERIF_HARNESS"), "/actix_router/resource.rs"));
+}
